@@ -86,7 +86,8 @@ var HostileValues = []string{
 	"java\tscript:alert(1)", "java\nscript:alert(1)", "&#106;avascript:alert(1)", "data:text/html,<script>alert(1)</script>", "vbscript:msgbox(1)",
 	"x\x00y", "\xff\xfe", "a&b", "a&amp;b", "&lt;b&gt;", "`", "a=b", "</title><script>", "--><script>", "]]>", "<!--", "\r\n", " ", "é", "𝒳",
 	"expression(alert(1))", "width: 100%", "url(javascript:alert(1))", "//evil.example/x", "\\\\evil\\x", "/path?a=1&b=2#f", "?q", "#frag", "",
-	" ", "\t", "x y", "http://example.org/", "https://example.org/a?b=c&d=e", "mailto:a@example.org", "HTTP://EXAMPLE.ORG/UP", "http://a b/", "http://[::1]:80/", "http://user:pw@example.org/",
+	" ", "\t", "x y", "\f", "a\fb", "a\u2028b", "a\u2029b", "\u0085", "%41", "%zz", "%", "100%", "a%2", "HTTPS://Example.ORG/Path", "hTtP://example.org/", "data:image/svg+xml;base64,PHN2Zy8+", "data:image/x+y;base64,AAAA",
+	"x\x00", "\x00x", "\ufeffx", "a\u200bb", "\x7f", "\x1b[0m", "http://example.org/", "https://example.org/a?b=c&d=e", "mailto:a@example.org", "HTTP://EXAMPLE.ORG/UP", "http://a b/", "http://[::1]:80/", "http://user:pw@example.org/",
 }
 
 func HostileValue(r *rand.Rand) string { return HostileValues[r.Intn(len(HostileValues))] }
